@@ -113,8 +113,11 @@ def call_function(it, fv, args, kwargs):
         finally:
             it.spec_mode = saved_mode
     if it.mode.use_contract(fv):
-        from .contracts import apply_contract
-        return apply_contract(it, fv, args, kwargs)
+        from .contracts import apply_contract, NoContractMatch
+        try:
+            return apply_contract(it, fv, args, kwargs)
+        except NoContractMatch:
+            pass        # fall through: execute the body
     bound = bind_args(it, fv, args, kwargs)
     fr = make_frame(it, fv, bound)
     if fv.is_generator:
@@ -124,7 +127,9 @@ def call_function(it, fv, args, kwargs):
     if it.depth > MAX_DEPTH:
         raise Unsupported('call depth exceeded at %s' % fv.qualname)
     saved_mode = it.spec_mode
-    it.spec_mode = False      # function bodies always run with Python's own semantics
+    # repository function bodies always run with Python's own semantics; functions of the
+    # spec.* modules are specification text (and/or/not build formulas)
+    it.spec_mode = fv.module.name.startswith('spec.')
     try:
         try:
             it.exec_block(fv.node.body, fr)
